@@ -43,8 +43,15 @@ static std::string cmd_expr(const std::vector<std::string> &args)
     char token[TOKENLEN];
     char buf[64];
     int token_type = tokens_get(ctx, token, TOKENLEN);
-    snprintf(buf, sizeof(buf), "ok %016llx ", (unsigned long long)var.get_int64());
-    out = buf + render_token(token_type, token);
+    std::string next = render_token(token_type, token);
+    int remaining = 0;
+    while (token_type != TOKEN_EOL && token_type != TOKEN_EOF && remaining < 100000)
+    {
+      remaining++;
+      token_type = tokens_get(ctx, token, TOKENLEN);
+    }
+    snprintf(buf, sizeof(buf), "ok %016llx %d ", (unsigned long long)var.get_int64(), remaining);
+    out = buf + next;
   }
   delete ctx;
   return out;
